@@ -770,15 +770,15 @@ class Gen:
 
     def generate(self):
         q = self.tier == 'quick'
-        self.fam_single(42 if q else 300)
-        self.fam_arrays(20 if q else 200)
-        self.fam_lists(24 if q else 250)
-        self.fam_structs(48 if q else 400)
+        self.fam_single(42 if q else 200)
+        self.fam_arrays(20 if q else 120)
+        self.fam_lists(24 if q else 160)
+        self.fam_structs(48 if q else 240)
         self.fam_enums()
         self.invalid_enums()
-        self.invalid_bitfields(6 if q else 60)
-        self.perturbed_bitfields(150 if q else 1500)
-        self.perturbed_enums(80 if q else 600)
+        self.invalid_bitfields(6 if q else 40)
+        self.perturbed_bitfields(150 if q else 900)
+        self.perturbed_enums(80 if q else 400)
         self.exhaustive_small_slice()
         return self.decls
 
